@@ -44,6 +44,10 @@ pub struct C15Case {
     /// history starts (what they allowed for themselves must not leak into the library's handler)
     #[serde(default)]
     pub nodefer_prior: bool,
+    /// every signal of the set is ignored (inherited SIG_IGN, as under nohup or for SIGPIPE in any
+    /// Rust program) before the history starts: a registration must still take the signal over
+    #[serde(default)]
+    pub ignored_prior: bool,
 }
 
 pub fn strategy() -> BoxedStrategy<C15Case> {
@@ -59,15 +63,16 @@ pub fn strategy() -> BoxedStrategy<C15Case> {
         6 => (0u8..7, prop::bool::weighted(0.35)).prop_map(|(sig, to_helper)| Op::Deliver { sig, to_helper }),
     ];
     // bias towards few signals so that actions pile up on one signal
-    (vec(op, 1..21), 1u8..4, prop_oneof![2 => Just(0u8), 1 => Just(1u8), 1 => Just(2u8)], prop::bool::weighted(0.4))
-        .prop_map(|(mut ops, nsig, helpers, nodefer_prior)| {
+    (vec(op, 1..21), 1u8..4, prop_oneof![2 => Just(0u8), 1 => Just(1u8), 1 => Just(2u8)], prop_oneof![3 => Just(0u8), 2 => Just(1u8), 1 => Just(2u8)])
+        .prop_map(|(mut ops, nsig, helpers, prior)| {
+            let (nodefer_prior, ignored_prior) = (prior == 1, prior == 2);
             for o in ops.iter_mut() {
                 match o {
                     Op::RegFlag { sig, .. } | Op::RegUsize { sig, .. } | Op::RegShutdown { sig, .. } | Op::RegSpy { sig } | Op::RegReraise { sig } | Op::Deliver { sig, .. } => *sig %= nsig,
                     _ => {}
                 }
             }
-            C15Case { ops, helpers, nodefer_prior }
+            C15Case { ops, helpers, nodefer_prior, ignored_prior }
         })
         .boxed()
 }
@@ -90,6 +95,15 @@ fn child(case: &C15Case, fd: i32) {
     OUT_FD.store(fd, Ordering::SeqCst);
     unsafe { libc::atexit(at_exit_marker) };
     RERAISED.store(false, Ordering::SeqCst);
+    if case.ignored_prior && !case.nodefer_prior {
+        for s in SIGSET.iter() {
+            unsafe {
+                let mut sa: libc::sigaction = std::mem::zeroed();
+                sa.sa_sigaction = libc::SIG_IGN;
+                libc::sigaction(*s, &sa, std::ptr::null_mut());
+            }
+        }
+    }
     if case.nodefer_prior {
         for s in SIGSET.iter() {
             unsafe {
@@ -224,6 +238,7 @@ fn child(case: &C15Case, fd: i32) {
                 if *to_helper && !helper_ids.is_empty() {
                     let (pt, tid, hi) = helper_ids[0];
                     let before = HELPER_TICKS[hi % 4].load(Ordering::SeqCst);
+                    let reraised_before = RERAISED.load(Ordering::SeqCst);
                     let kr = unsafe { libc::pthread_kill(pt, SIGSET[*sig as usize % 7]) };
                     if kr != 0 {
                         emit(fd, &json!({"k": "infra", "what": format!("pthread_kill failed: {}", kr)}));
@@ -231,7 +246,10 @@ fn child(case: &C15Case, fd: i32) {
                     let start = std::time::Instant::now();
                     let pid = unsafe { libc::getpid() };
                     loop {
-                        if HELPER_TICKS[hi % 4].load(Ordering::SeqCst) > before {
+                        // (a re-raise from inside this delivery is taken by the helper at its
+                        // next sigsuspend: one more tick to wait for)
+                        let need = if !reraised_before && RERAISED.load(Ordering::SeqCst) { 2 } else { 1 };
+                        if HELPER_TICKS[hi % 4].load(Ordering::SeqCst) >= before + need {
                             break;
                         }
                         let r = unsafe { libc::syscall(libc::SYS_tgkill, pid, tid, 0) };
@@ -350,6 +368,12 @@ pub fn run_case(case: &C15Case) -> CaseReport {
             Op::StoreUsize { flag, v } => us[*flag as usize % 2] = *v,
             Op::Deliver { sig, .. } => {
                 let list: Vec<Act> = actions[*sig as usize % 7].iter().map(|x| x.1.clone()).collect();
+                if list.is_empty() && !taken_model[*sig as usize % 7] && (case.ignored_prior || case.nodefer_prior) {
+                    // nobody registered anything: the third party's disposition (ignore / a no-op
+                    // handler) is still in place and the delivery changes nothing
+                    states.push((bools, us));
+                    continue;
+                }
                 if list.is_empty() && !taken_model[*sig as usize % 7] {
                     // never taken over: the harness would die of the default action - the child
                     // skips nothing, so do not generate: treat as death by the signal itself
